@@ -115,7 +115,10 @@ IndexConsistent == /\ DOMAIN index = {files[i].name : i \in 1..Len(files)}
 \* an error) leaves every implementation variable as it was, and without the item count the histories that contain one,
 \* two, three such submissions would collapse into the first one found -- exactly the histories in which a wrong
 \* "skip" loop shows.
-View == <<files, patch, index, count, renames, last, err, dropping, open, nfeeds, NItems>>
+\* ... and the kinds of the items of the current call, so that "duplicate, duplicate, patch" and "duplicate, patch,
+\* patch" (same variables, same count) are both explored.
+LastKinds == IF h = <<>> THEN <<>> ELSE [i \in 1..Len(h[Len(h)]) |-> h[Len(h)][i].k]
+View == <<files, patch, index, count, renames, last, err, dropping, open, nfeeds, NItems, LastKinds>>
 Emit == (~open /\ h # <<>>) =>
           PrintT("CASE " \o ToJson([h |-> h, nfiles |-> Len(files), err |-> err,
                                     renames |-> Cardinality({i \in 1..Len(files) : files[i].name # files[i].orig})]))
